@@ -10,42 +10,60 @@ namespace Settlus
 /-- the chain id of the application under test -/
 def thisChain : Str := "settlus_5371-1".toList
 
-/-- `a3`, `A3` (upper-case bech32 spelling), `o1`, `O1` decode to the account `a3` / `o1`; anything else is not bech32 -/
-def decodeAcc (tok : String) : Option String :=
+/-- accounts the protocol can name: `a<i>` ordinary accounts, `o<i>` the operator account of validator i -/
+inductive Acct
+  | a (i : Nat)
+  | o (i : Nat)
+deriving DecidableEq, Repr
+
+def digitsVal (cs : List Char) : Nat := cs.foldl (fun acc c => acc * 10 + (c.toNat - 48)) 0
+
+def allDigits (cs : List Char) : Bool := !cs.isEmpty && cs.all Char.isDigit
+
+/-- `a3`, `A3` (upper-case bech32 spelling), `o1`, `O1` decode to the account; anything else is not bech32 -/
+def decodeAcc (tok : String) : Option Acct :=
   match tok.toList with
-  | 'a' :: r => if !r.isEmpty && r.all Char.isDigit then some tok else none
-  | 'o' :: r => if !r.isEmpty && r.all Char.isDigit then some tok else none
-  | 'A' :: r => if !r.isEmpty && r.all Char.isDigit then some (String.ofList ('a' :: r)) else none
-  | 'O' :: r => if !r.isEmpty && r.all Char.isDigit then some (String.ofList ('o' :: r)) else none
+  | 'a' :: r => if allDigits r then some (.a (digitsVal r)) else none
+  | 'A' :: r => if allDigits r then some (.a (digitsVal r)) else none
+  | 'o' :: r => if allDigits r then some (.o (digitsVal r)) else none
+  | 'O' :: r => if allDigits r then some (.o (digitsVal r)) else none
   | _ => none
 
 /-- `v2` / `V2` decode to validator index 2 -/
 def decodeVal (tok : String) : Option Nat :=
   match tok.toList with
-  | 'v' :: r => if !r.isEmpty && r.all Char.isDigit then (String.ofList r).toNat? else none
-  | 'V' :: r => if !r.isEmpty && r.all Char.isDigit then (String.ofList r).toNat? else none
+  | 'v' :: r => if allDigits r then some (digitsVal r) else none
+  | 'V' :: r => if allDigits r then some (digitsVal r) else none
   | _ => none
 
 def valName (i : Nat) : String := "v" ++ toString i
 
 /-- the account of validator i's operator -/
-def opAcc (i : Nat) : String := "o" ++ toString i
+def opAcc (i : Nat) : Acct := .o i
 
-/-- the 20-byte address of account `a<i>`: byte i+1 repeated (the harness uses the same pattern) -/
-def accHex (acc : String) : Str :=
-  match acc.toList with
-  | 'a' :: r => match (String.ofList r).toNat? with
-    | some i => '0' :: 'x' :: bytesHex (List.replicate 20 (i + 1))
-    | none => []
-  | _ => ("0xop" ++ acc).toList
+/-- the 20-byte address of account `a<i>`: byte i+1 repeated (the harness uses the same pattern); operator accounts have
+addresses the model never needs (a placeholder outside the hex alphabet) -/
+def accHex : Acct → Str
+  | .a i => '0' :: 'x' :: bytesHex (List.replicate 20 (i + 1))
+  | .o i => 'o' :: 'p' :: (toString i).toList
 
-/-- the bank holder name of a 20-byte address: `a<i>` for the pattern addresses, else the address itself -/
-def holderOfHex (h : Str) : String :=
-  match (List.range 10).find? (fun i => accHex ("a" ++ toString i) == h) with
-  | some i => "a" ++ toString i
-  | none => String.ofList h
+/-- who can hold a balance -/
+inductive Holder
+  | acct (x : Acct)
+  | treasury (t : Nat)
+  | addr (h : Str)        -- any other 20-byte address, by its hex form
+  | pool                  -- oracle module account (reward pool)
+  | distr                 -- distribution module account
+  | collector             -- fee collector
+deriving DecidableEq, Repr
 
-def treasuryName (t : Nat) : String := "t" ++ toString t
+/-- the bank holder of a 20-byte address: `a<i>` for the pattern addresses, else the address itself -/
+def holderOfHex (h : Str) : Holder :=
+  match (List.range 10).find? (fun i => accHex (.a i) == h) with
+  | some i => .acct (.a i)
+  | none => .addr h
+
+def treasuryName (t : Nat) : Holder := .treasury t
 
 /-! ### settlement -/
 
@@ -67,7 +85,7 @@ deriving DecidableEq, Repr
 
 structure Tenant where
   id : Nat
-  admins : List String     -- canonical account names
+  admins : List Acct
   denom : Str
   period : Nat
   mint : Bool              -- payout method: false = native, true = mintable contract
@@ -111,12 +129,12 @@ structure OState where
   prevotes : List (String × Str)            -- keyed by the validator string of the message (spelling kept)
   votes : List (String × List VoteData)
   miss : List (String × Nat)
-  feeders : List (String × String)          -- validator string -> feeder account
+  feeders : List (String × Acct)            -- validator string -> feeder account
 
 /-! ### interfaces -/
 
-/-- bank balances by holder name and denomination -/
-abbrev Bank := String → Str → Nat
+/-- bank balances by holder and denomination -/
+abbrev Bank := Holder → Str → Nat
 
 structure Val where
   tokens : Nat
@@ -136,7 +154,7 @@ inductive Event
   | cancelled (t id : Nat) (h : Nat)
   | dropped (t id : Nat) (h : Nat)
   | filled (t id : Nat) (owner : Str) (h : Nat)
-  | paid (t id : Nat) (holder : String) (denom : Str) (amt : Nat)
+  | paid (t id : Nat) (holder : Holder) (denom : Str) (amt : Nat)
   | deposited (t : Nat) (denom : Str) (amt : Nat)
 deriving DecidableEq, Repr
 
